@@ -685,4 +685,11 @@ theorem exposure_scales_with_power (g : Geom) (c : K) (l : List (List K × K × 
 example : sumCharges (Geom.uniform [1] 2) ([(([1, 2] : List Rat), (1/2 : Rat), (1 : Rat))].map fun x => (x.1.map ((3 : Rat) * ·), x.2))
     = [9/2] := by decide +kernel
 
+/-- **Additivity in the weight**: integrating the same light for the same time with weights `w₁` and then `w₂`
+(two spectral channels of a broadband exposure, say) accumulates what one integration with weight `w₁ + w₂` does. -/
+theorem integrate_split_weight (g : Geom) (l : List (List K × K × K)) (p : List K) (dt w₁ w₂ : K) :
+    sumCharges g (l ++ [(p, dt, w₁), (p, dt, w₂)]) = sumCharges g (l ++ [(p, dt, w₁ + w₂)]) := by
+  have e : l ++ [(p, dt, w₁), (p, dt, w₂)] = (l ++ [(p, dt, w₁)]) ++ [(p, dt, w₂)] := by simp
+  rw [e, sumCharges_snoc, sumCharges_snoc, sumCharges_snoc, vadd_assoc_det, ← charge_add_w]
+
 end HcipyVerif.Detector
